@@ -848,3 +848,78 @@ Proof.
   apply lsim_trans with (l2 := sorted_children ch); [|apply lsim_sym; apply lsim_sorted].
   exists (sorted_children ch). split; [apply nodes_eq_Forall2; assumption | reflexivity].
 Qed.
+
+(* ------------------------------------------------------------------ several definitions in one string *)
+
+(* check_one over the definition groups of a string, one after the other *)
+Fixpoint check_defs (D : dict) (dgs : list (tag * list node)) : dict * list dissue :=
+  match dgs with
+  | [] => (D, [])
+  | dg :: r => let '(D1, i1) := check_one D (fst dg) (snd dg) in
+               let '(D2, i2) := check_defs D1 r in (D2, i1 ++ i2)
+  end.
+
+Lemma check_fold_gen dgs : forall D is0,
+  fold_left (fun acc dg => let '(D1, is1) := check_one (fst acc) (fst dg) (snd dg) in
+                           (D1, snd acc ++ is1)) dgs (D, is0) =
+  (fst (check_defs D dgs), is0 ++ snd (check_defs D dgs)).
+Proof.
+  induction dgs as [|dg r IH]; intros D is0; cbn [fold_left check_defs fst snd].
+  - rewrite app_nil_r. reflexivity.
+  - destruct (check_one D (fst dg) (snd dg)) as [D1 i1]. rewrite IH.
+    destruct (check_defs D1 r) as [D2 i2]. cbn [fst snd]. rewrite app_assoc. reflexivity.
+Qed.
+
+(* DefinitionDict.check_for_definitions = the fold of check_one over the definition
+   groups of the string: nothing but the dictionary is carried from one to the next *)
+Lemma check_for_definitions_fold D f :
+  check_for_definitions D f = check_defs D (find_top_level_definitions f).
+Proof.
+  unfold check_for_definitions. rewrite check_fold_gen. cbn [app].
+  destruct (check_defs D (find_top_level_definitions f)); reflexivity.
+Qed.
+
+Lemma check_defs_app l1 : forall D l2,
+  check_defs D (l1 ++ l2) =
+  let '(D1, i1) := check_defs D l1 in let '(D2, i2) := check_defs D1 l2 in (D2, i1 ++ i2).
+Proof.
+  induction l1 as [|dg r IH]; intros D l2; cbn [app check_defs].
+  - destruct (check_defs D l2); reflexivity.
+  - destruct (check_one D (fst dg) (snd dg)) as [D1 i1]. rewrite IH.
+    destruct (check_defs D1 r) as [D2 i2]. destruct (check_defs D2 l2) as [D3 i3].
+    rewrite app_assoc. reflexivity.
+Qed.
+
+Lemma find_top_app f1 f2 :
+  find_top_level_definitions (f1 ++ f2) = find_top_level_definitions f1 ++ find_top_level_definitions f2.
+Proof. unfold find_top_level_definitions, direct_groups. rewrite !flat_map_app. reflexivity. Qed.
+
+(* one string holding the definitions of two strings = the two strings one after the other *)
+Lemma check_for_definitions_split D f1 f2 :
+  check_for_definitions D (f1 ++ f2) =
+  let '(D1, i1) := check_for_definitions D f1 in
+  let '(D2, i2) := check_for_definitions D1 f2 in (D2, i1 ++ i2).
+Proof. rewrite !check_for_definitions_fold, find_top_app, check_defs_app.
+  destruct (check_defs D (find_top_level_definitions f1)) as [D1 i1].
+  rewrite check_for_definitions_fold. reflexivity.
+Qed.
+
+(* the verdict of a definition = its verdict alone, and its name not stored yet *)
+Lemma accept_context D dt g :
+  acceptable D dt g <-> acceptable [] dt g /\ mem_key (lower (def_name dt)) D = false.
+Proof. unfold acceptable. cbn [mem_key lookup]. tauto. Qed.
+
+(* ... wherever it stands in its string: after any predecessors [pre] the definition is
+   stored exactly when it is acceptable alone and no predecessor (or earlier string)
+   stored its name; what the predecessors looked like is otherwise irrelevant *)
+Lemma verdict_in_string D pre dt g post :
+  let Dp := fst (check_defs D pre) in
+  (acceptable [] dt g /\ mem_key (lower (def_name dt)) Dp = false <->
+   check_one Dp dt g = (new_dict Dp dt g, [])) /\
+  fst (check_defs D (pre ++ (dt, g) :: post)) = fst (check_defs (fst (check_one Dp dt g)) post).
+Proof.
+  cbv zeta. split.
+  - rewrite <- accept_context. apply accept_iff.
+  - rewrite check_defs_app. destruct (check_defs D pre) as [Dp ip]. cbn [check_defs fst snd].
+    destruct (check_one Dp dt g) as [D1 i1]. cbn [fst snd]. destruct (check_defs D1 post) as [D2 i2]. reflexivity.
+Qed.
